@@ -162,6 +162,10 @@ func (fr *Frame) getSetSharedSlot(idx int, val Value,
 		panic("uninitialized variable: " + fr.fn.VarName(idx))
 	}
 	val = op(orig, val)
+	if fr.shared.concurrent {
+		// the value becomes accessible to the other threads (like SuObject set)
+		val.SetConcurrent()
+	}
 	fr.shared.values[i] = val
 	if retOrig {
 		return orig
@@ -173,6 +177,9 @@ func (fr *Frame) getSetSharedSlot(idx int, val Value,
 func (fr *Frame) setSharedSlot(idx int, val Value) {
 	if fr.shared.Lock() {
 		defer fr.shared.Unlock()
+		if val != nil {
+			val.SetConcurrent()
+		}
 	}
 	fr.shared.values[idx-SharedSlotStart] = val
 }
